@@ -45,19 +45,19 @@ pub enum EncCall {
     ReqResolveUuid { uuid: [u8; 16], handle: u8 },
     ReqQueryRateLimit,
     // ---- vendor defined (request half)
-    ReqVendor { format: u8, data: u32, numeric: u16, msg: Vec<u8> },
+    ReqVendor { format: u8, data: u32, numeric: u16, #[serde(with = "hexv")] msg: Vec<u8> },
     // ---- the public trait-level packet writers (either half)
-    TraitControl { half: Half, header: Option<Vec<u8>>, data: Vec<u8> },
-    TraitPci { half: Half, header: Option<Vec<u8>>, data: Vec<u8> },
-    TraitIana { half: Half, header: Option<Vec<u8>>, data: Vec<u8> },
-    TraitSpdm { half: Half, secured: bool, header: Option<Vec<u8>>, data: Vec<u8> },
+    TraitControl { half: Half, #[serde(with = "hexo")] header: Option<Vec<u8>>, #[serde(with = "hexv")] data: Vec<u8> },
+    TraitPci { half: Half, #[serde(with = "hexo")] header: Option<Vec<u8>>, #[serde(with = "hexv")] data: Vec<u8> },
+    TraitIana { half: Half, #[serde(with = "hexo")] header: Option<Vec<u8>>, #[serde(with = "hexv")] data: Vec<u8> },
+    TraitSpdm { half: Half, secured: bool, #[serde(with = "hexo")] header: Option<Vec<u8>>, #[serde(with = "hexv")] data: Vec<u8> },
     // ---- the six control response encoders
     RespSetEndpointId { cc: u8, assign: u8, alloc: u8 },
     RespGetEndpointId { cc: u8, etype: u8, idtype: u8, fairness: bool },
     RespUuid { cc: u8, uuid: [u8; 16] },
     RespVersion { cc: u8 },
-    RespMsgTypes { cc: u8, types: Vec<u8> },
-    RespVendorSupport { cc: u8, selector: u8, vendor_id: Vec<u8> },
+    RespMsgTypes { cc: u8, #[serde(with = "hexv")] types: Vec<u8> },
+    RespVendorSupport { cc: u8, selector: u8, #[serde(with = "hexv")] vendor_id: Vec<u8> },
 }
 
 pub const N_KINDS: usize = 28;
@@ -170,6 +170,7 @@ pub struct EncEnv {
 #[derive(Clone, Debug, Serialize, Deserialize, PartialEq, Eq, Hash)]
 pub struct CtxCfg {
     pub addr: u8,
+    #[serde(with = "hexv")]
     pub msg_types: Vec<u8>,
     /// (format, data, numeric_value)
     pub vendors: Vec<(u8, u32, u16)>,
@@ -185,11 +186,11 @@ impl CtxCfg {
 #[derive(Clone, Debug, Serialize, Deserialize, PartialEq, Eq, Hash)]
 pub enum Op {
     /// process_packet(bytes, buf) where buf has `cap` bytes all equal to `fill`
-    Process { bytes: Vec<u8>, cap: u16, fill: u8 },
+    Process { #[serde(with = "hexv")] bytes: Vec<u8>, cap: u16, fill: u8 },
     /// decode_packet(bytes)
-    Decode { bytes: Vec<u8> },
+    Decode { #[serde(with = "hexv")] bytes: Vec<u8> },
     /// get_length(bytes)
-    GetLength { bytes: Vec<u8> },
+    GetLength { #[serde(with = "hexv")] bytes: Vec<u8> },
     SetReqEid(u8),
     SetRespEid(u8),
     SetUuid([u8; 16]),
@@ -203,4 +204,42 @@ pub fn hex(b: &[u8]) -> String {
         s.push_str(&format!("{:02x}", x));
     }
     s
+}
+
+pub fn unhex(s: &str) -> Result<Vec<u8>, String> {
+    let s: String = s.chars().filter(|c| !c.is_whitespace()).collect();
+    if s.len() % 2 != 0 {
+        return Err("odd number of hex digits".into());
+    }
+    (0..s.len() / 2).map(|i| u8::from_str_radix(&s[2 * i..2 * i + 2], 16).map_err(|e| e.to_string())).collect()
+}
+
+/// serde helper: `Vec<u8>` as a hex string
+pub mod hexv {
+    use serde::{Deserialize, Deserializer, Serializer};
+    pub fn serialize<S: Serializer>(v: &Vec<u8>, s: S) -> Result<S::Ok, S::Error> {
+        s.serialize_str(&super::hex(v))
+    }
+    pub fn deserialize<'de, D: Deserializer<'de>>(d: D) -> Result<Vec<u8>, D::Error> {
+        let s = String::deserialize(d)?;
+        super::unhex(&s).map_err(serde::de::Error::custom)
+    }
+}
+
+/// serde helper: `Option<Vec<u8>>` as null or a hex string
+pub mod hexo {
+    use serde::{Deserialize, Deserializer, Serializer};
+    pub fn serialize<S: Serializer>(v: &Option<Vec<u8>>, s: S) -> Result<S::Ok, S::Error> {
+        match v {
+            None => s.serialize_none(),
+            Some(b) => s.serialize_some(&super::hex(b)),
+        }
+    }
+    pub fn deserialize<'de, D: Deserializer<'de>>(d: D) -> Result<Option<Vec<u8>>, D::Error> {
+        let o = Option::<String>::deserialize(d)?;
+        match o {
+            None => Ok(None),
+            Some(s) => super::unhex(&s).map(Some).map_err(serde::de::Error::custom),
+        }
+    }
 }
